@@ -237,6 +237,11 @@ def oracle(case, obs, res):
             if L >= len(ledger) or ledger[L][1] != sig or ledger[L][2] != "put":
                 raise HarnessError(f"put record does not match the ledger: {rec} vs {ledger[L] if L < len(ledger) else None}")
             verdict, why, iv = classify(obs, rec, ivs)
+            if inj.get("on_doc") and rec["state"] != "running" and verdict == "must_not" and why in ("paused", "suspended"):
+                # an update made from inside a document callback arrives in the middle of an engine step: a document
+                # dispatched while the state label still says 'paused' belongs to the resume hand-over (monitors are
+                # re-subscribed, which reports the current value, before the state changes)
+                verdict, why = "may", "inside_document_callback_during_" + why
             n = notify.get(L, 0)
             res.classes.append(f"put:{verdict}:{why}" + (":main" if inj.get("main_thread") else ""))
             p = rec["hook_index"]
@@ -430,7 +435,15 @@ def cases():
                 s["inj"] = extra
             stages.append(s)
         stages.append({"do": "put", "sig": draw(st.sampled_from(["s1", "s1", "s2"])), "value": value("s1")})
-        return {"name": "gen:c41", "plan": SEQ(*nodes), "devices": copy.deepcopy(DEVICES), "stages": stages, "probe": True}
+        case = {"name": "gen:c41", "plan": SEQ(*nodes), "devices": copy.deepcopy(DEVICES), "stages": stages, "probe": True}
+        if draw(st.integers(0, 3)) == 0:
+            # a document consumer that updates a monitored signal from inside its callback
+            case["re"] = {
+                "doc_puts": [
+                    {"on": draw(st.sampled_from(["stop", "stop", "event", "descriptor", "start"])), "nth": draw(st.integers(1, 2)), "sig": draw(st.sampled_from(["s1", "s1", "s2"])), "value": 77.0}
+                ]
+            }
+        return case
 
     return gen()
 
@@ -476,6 +489,12 @@ def sweep_cases(seed, quick):
                 tail = [{"do": "put", "sig": "s1", "value": 99.0}]
                 if mode == "plain":
                     c["stages"] = [{"do": "call", "inj": injs}] + tail
+                    if k % 4 == 0:
+                        # the same, with a document consumer that updates the signal from inside its callback
+                        for on, nth in (("stop", 1), ("descriptor", 1), ("event", 2), ("start", 1)):
+                            c2 = copy.deepcopy(c)
+                            c2["re"] = {"doc_puts": [{"on": on, "nth": nth, "sig": "s1", "value": 21.0}]}
+                            yield c2
                 elif mode == "pause":
                     injs.append({"at": k + 1, "do": "pause"})
                     injs.append({"at": k + 1, "after": 4.0, "do": "put", "sig": "s1", "value": 12.0})
